@@ -709,3 +709,60 @@ package websocket
 //@ ensures[writer] result.writer == nil && result.writeErr == nil && result.writeBufSize >= 139 && \
 //@     ((region(result.writeBuf) == 0 && len(result.writeBuf) == 0 && result.writePool != nil) || (region(result.writeBuf) > 0 && len(result.writeBuf) >= 139 && off(result.writeBuf) == 0 && live(result.writeBuf)))
 //@ ensures[C01.ctlroom] imp(region(result.writeBuf) != 0, len(result.writeBuf) >= 14 + 125)
+
+// ---------------------------------------------------------------------------
+// util.go / server.go / client.go: header scanners and small helpers
+
+//@ func nextTokenOrQuoted
+//@ tags C07 C12 C15
+//@ allocbound len(s)
+//@ ensures[shrink] len(rest) <= len(s)
+//@ loop 1 invariant 0 <= i && i <= len(s)
+//@ loop 1 decreases len(s) - i
+//@ loop 2 invariant 0 <= j && j < i && i <= len(s) && len(p) == len(s) - 1 && off(p) == 0
+//@ loop 2 decreases len(s) - i
+
+//@ func tokenListContainsValue
+//@ tags C07 C12 C14
+//@ pure
+//@ assert at return#1[C12.token]: forall(i, 0, len(t), httpTok(t[i])) && len(t) > 0 && len(t) == len(value) && (len(s) == 0 || s[0] == ',')
+//@ assert at return#1[C12.fold]: forall(i, 0, len(t), lower(t[i]) == lower(value[i]))
+//@ loop 2 decreases len(s)
+
+//@ func parseExtensions
+//@ tags C07 C12 C15
+//@ loop 2 let s0 := s
+//@ loop 2 decreases len(s)
+//@ loop 3 invariant len(s) < len(s0)
+//@ loop 3 decreases len(s)
+
+//@ func isValidChallengeKey
+//@ tags C07 C12
+
+//@ func hostPortNoPort
+//@ tags C07 C14 C18
+//@ bind i after call:LastIndex#1
+//@ bind j after call:LastIndex#2
+//@ assert at return#1[C18.hasport]: imp(i > j, hostPort == u.Host && region(hostNoPort) == region(u.Host) && off(hostNoPort) == off(u.Host) && len(hostNoPort) == i)
+//@ assert at return#1[C18.noport]: imp(i <= j, hostNoPort == u.Host && len(hostPort) == len(u.Host) + ite(streq(u.Scheme, "wss") || streq(u.Scheme, "https"), 4, 3))
+//@ assert at return#1[C18.lastcolon]: imp(i >= 0, u.Host[i] == ':') && forall(k, i + 1, len(u.Host), u.Host[k] != ':') && imp(j >= 0, u.Host[j] == ']') && forall(k, j + 1, len(u.Host), u.Host[k] != ']')
+//@ ensures[C18.split] (hostPort == u.Host && region(hostNoPort) == region(u.Host) && off(hostNoPort) == off(u.Host) && len(hostNoPort) < len(u.Host) && u.Host[len(hostNoPort)] == ':') || \
+//@     (hostNoPort == u.Host && len(hostPort) == len(u.Host) + ite(streq(u.Scheme, "wss") || streq(u.Scheme, "https"), 4, 3))
+//@ ensures[C18.host] imp(len(hostPort) > len(u.Host), forall(k, 0, len(u.Host), hostPort[k] == u.Host[k]))
+//@ ensures[C18.port443] imp(len(hostPort) > len(u.Host) && (streq(u.Scheme, "wss") || streq(u.Scheme, "https")), hostPort[len(u.Host)] == ':' && hostPort[len(u.Host)+1] == '4' && hostPort[len(u.Host)+2] == '4' && hostPort[len(u.Host)+3] == '3')
+//@ ensures[C18.port80] imp(len(hostPort) > len(u.Host) && !(streq(u.Scheme, "wss") || streq(u.Scheme, "https")), hostPort[len(u.Host)] == ':' && hostPort[len(u.Host)+1] == '8' && hostPort[len(u.Host)+2] == '0')
+
+//@ func checkSameOrigin
+//@ tags C07 C12 C13
+//@ assert at return#1[C13.noorigin]: len(origin) == 0
+//@ assert at call:equalASCIIFold#1[C13.args]: arg0 == u.Host && arg1 == r.Host && len(origin) > 0 && err == nil
+
+//@ func Subprotocols
+//@ tags C07 C12
+
+//@ func (*Upgrader).selectSubprotocol
+//@ tags C07 C12
+//@ assert at return#1[C12.offered]: u.Subprotocols != nil && streq(clientProtocol, serverProtocol)
+
+//@ func (*httpProxyDialer).DialContext
+//@ tags C07 C18
